@@ -235,13 +235,13 @@ def replay_trace_concrete(cfg: dict, inp: dict) -> dict:
 
 def configs(tier: str):
     out = []
-    B_max = 2 if tier == 'quick' else 3
+    B_max = 2 if tier == 'quick' else 4
     for tracer in (True, ['Y0'], 'Y0'):
         for errors in ('raise', 'skip', 'ignore', 'replace'):
             for failures in ('raise', 'ignore'):
                 for B in range(0, B_max + 1):
                     for N in (1, 2):
-                        if N == 2 and (tracer is not True or B > 2):
+                        if N == 2 and (tracer is not True or B > 3):
                             continue
                         for faults in (False, True):
                             if faults and (tier == 'quick' and (B > 1 or N == 2)):
@@ -278,7 +278,7 @@ def main() -> int:
         functions=['fsic.extensions.model.TracerMixin.solve_t/solve_t_before/solve_t_after/_evaluate/trace_t',
                    'fsic.extensions.model.Trace.append', 'fsic.core.models.BaseModel.solve_t',
                    'fsic.core.interfaces.SolverMixin.solve_period'],
-        bounds={'max_iter': f"0..{2 if tier == 'quick' else 3}", 'check_variables': '1..2', 'span_length': 3,
+        bounds={'max_iter': f"0..{2 if tier == 'quick' else 4}", 'check_variables': '1..2', 'span_length': 3,
                 'trace': [True, ['Y0'], 'Y0'], 'entry': ['solve_t', 'solve_period'],
                 'values': 'every Float64 per cell and pass; symbolic fault kinds', 'reset': False},
         outside=['multi-period solve() with tracing (covered by C05 + this per-period result)', 'repeated solves of one period',
